@@ -26,9 +26,10 @@ def _flip_admin(ev):
     return set_field(ev, ["obs", "admin"], "n" if ev["obs"]["admin"] == "self" else "self")
 
 
-def _ok_generic_mint(ev):
+def _ok_signed(ev, kind):
+    """a successful call of the given kind that the generic admin contract's __check_auth let through"""
     o = ev["op"]
-    return o["op"] == "mint" and o["via"] == "sac" and ev["res"] == "ok" and o["key"] != "none" and ev["obs"]["admin"] == "self"
+    return o["op"] == kind and o["via"] == "sac" and ev["res"] == "ok" and o["key"] != "none" and o["auth"] == []
 
 
 MODEL = dict(
@@ -55,8 +56,8 @@ MODEL = dict(
         lambda ev: set_field(ev, ["obs", "bal", "u"], ev["obs"]["bal"]["u"] + 1),
         _flip_admin,
         lambda ev: set_field(ev, ["res"], "ok") if ev["op"]["op"] == "mint" and ev["res"] == "fail" and ev["op"]["sig"] in ("bad", "forged") else None,
-        lambda ev: set_field(ev, ["op", "key"], "kx") if _ok_generic_mint(ev) else None,
-        lambda ev: set_field(ev, ["op", "amt"], 2000000) if _ok_generic_mint(ev) else None,
+        lambda ev: set_field(ev, ["op", "sig"], "bad") if _ok_signed(ev, "set_authorized") else None,
+        lambda ev: set_field(ev, ["op", "key"], "ko") if _ok_signed(ev, "set_admin") else None,
         lambda ev: set_field(ev, ["op", "auth"], []) if ev["op"]["via"] == "wrap" and ev["res"] == "ok" else None,
         lambda ev: set_field(ev, ["op", "key"], "ko") if ev["op"]["op"] == "xfer" and ev["res"] == "ok" else None,
     ],
